@@ -40,6 +40,7 @@ LEVEL = "proof"
 TOL = 1e-9  # relative, after division by the cancellation factor of the residual
 STD_FLOOR = 1e-2
 DEGENERATE = 1e12  # cancellation factor beyond which a residual is rounding noise only
+FLOOR2 = (1e3 * 2.220446049250313e-16) ** 2  # (1e3 x the floor on the dynamic scale introduced by repository fix 4b386e0)^2
 AMP_MAX = 1e7  # whitened residuals that cancel to less than 1e-7 of their summands are not determined by float data
 
 
@@ -198,8 +199,11 @@ def model_terms_along(ctx, cfg, stepper, states, dts, case, sigp, per_step_check
                 ctx.dev("mle.running2", dev, TOL, case=c, sig=f"{sigp}:running-update", what=f"running scale^2 after step {i}: {L.tofl(r2_impl)} vs model {L.tofl(r2_mod)}")
         elif cfg.solver.startswith("dynamic"):
             dyn.append(info["scale2"])
-            if per_step_checks and amp < AMP_MAX:
-                g2 = np.asarray(new.output_scale, dtype=np.float64).reshape(-1) ** 2
+            g2 = np.asarray(new.output_scale, dtype=np.float64).reshape(-1) ** 2
+            if np.any(g2 <= FLOOR2):
+                # repository fix 4b386e0 keeps the local scale >= machine epsilon; the model has no such floor
+                ctx.skip("dynamic scale at / near the positivity floor (eps) of the implementation: not compared with the model")
+            elif per_step_checks and amp < AMP_MAX:
                 e2 = L.tofl(info["scale2"])
                 dev = L.rel(g2, e2) / amp
                 ctx.dev("dynamic.scale2", dev, TOL, case=c, sig=f"{sigp}:dynamic-scale", what=f"dynamic scale^2 of step {i}: {g2} vs model {e2}")
@@ -485,6 +489,14 @@ def compare_equivariant(ctx, cfg, d, a, b, c, amp, case, sigp, assert_=True, ext
     # quantities into which an estimated scale enters are determined by the float data only up to the cancellation
     # factor of the residual; beyond AMP_MAX they are not compared (means and uncalibrated stds always are)
     scale_ok = amp < AMP_MAX
+    if cfg.solver.startswith("dynamic"):
+        oa_, ob_ = np.asarray(a.output_scale, dtype=np.float64)[1:], np.asarray(b.output_scale, dtype=np.float64)[1:]
+        if np.any(oa_**2 <= FLOOR2) or np.any(ob_**2 <= FLOOR2):
+            # the implementation keeps the dynamic scale >= machine epsilon (fix 4b386e0): for extreme c the scale of
+            # one of the runs sits on that floor and is no longer sigma / c; outside the theorem (the model has no floor)
+            if assert_:
+                ctx.skip("equivariance (dynamic): a local scale at / near the positivity floor (eps): scale-dependent quantities not compared")
+            scale_ok = False
 
     def cmp(na, nb):
         ma, sa = L.moments(na, T)
